@@ -117,7 +117,7 @@ class GoVerifier(GoExec, SpecMixin, CallsMixin, StmtsMixin, LibMixin):
                     g = self.dump.get('globals', {}).get(gk)
                     if g is None or 'init' not in g:
                         raise Unsupported('initval: no initializer for %s' % gk)
-                    st.ghost[('global', gk)] = self.ev(st, g['init'])
+                    st.ghost[('global', gk.split(':', 1)[-1])] = self.ev(st, g['init'])
                     self.assumed.add('package variable %s holds its initial value' % gk)
         entry = st.clone()
         st.entry = entry
@@ -138,6 +138,12 @@ class GoVerifier(GoExec, SpecMixin, CallsMixin, StmtsMixin, LibMixin):
                     rtids.append(fld['Type']['t'])
             if not key.startswith(('natives:', 'goroot:')):
                 fr.replayer = GoReplayer(self, fr, entry, params, rnames, rtids)
+            elif key.startswith('natives:'):
+                from .nativesreplay import NativesReplayer
+                pk = key.split(':', 1)[1]
+                slash = pk.rfind('/'); dot = pk.find('.', slash + 1)
+                if '.' not in pk[dot + 1:]:        # plain functions only
+                    fr.replayer = NativesReplayer(self, fr, entry, params, rnames, rtids, pk[:dot], pk[dot + 1:])
         except Exception:
             fr.replayer = None
         if c:
